@@ -7,7 +7,7 @@
 //   opt sd <lr> <mom> | adam <eta> <b1> <b2> <eps> | rprop <inc> <dec> <max> <min> <fr> <bt> <ov> <initDelta>
 //       bfgs <ls> [minI maxI] | cg <ls> [minI maxI] | lbfgs <ls> <hist> [minI maxI] | trn [delta0 minImprovementRatio]
 //       ls: 0 dlinmin 1 wolfecubic 2 backtracking; minI/maxI = LineSearch::minInterval()/maxInterval() (initial bracket of dlinmin)
-//   init <x0 n>
+//   init <x0 n>                             (a second `init` re-initialises the used instance; its twin becomes a fresh one)
 //   step
 //   ls <type> <t0> <x n> <d n>             one direct line search from x along d (any direction, also ascent / zero)
 //   save text|bin strict|lenient            write the optimizer, read into a fresh instance, continue with it
@@ -277,7 +277,7 @@ static double g_lastDecrease = 0;   // value decrease of the most recent `step` 
 
 int main(){
 	std::unique_ptr<Obj> f(new Obj());
-	Config cfg; std::unique_ptr<Wrap> cur, twin;
+	Config cfg; std::unique_ptr<Wrap> cur, twin; bool inited = false;
 	RealVector x0;
 	std::string line;
 	while(std::getline(std::cin, line)){
@@ -305,7 +305,7 @@ int main(){
 			}else if(t[0] == "opt"){
 				cfg.kind = t.at(1); cfg.p.clear();
 				for(std::size_t k = 2; k < t.size(); ++k) cfg.p.push_back(bits2d(t[k]));
-				cur.reset(make(cfg, false, true)); twin.reset(make(cfg, false, true));
+				cur.reset(make(cfg, false, true)); twin.reset(make(cfg, false, true)); inited = false;
 				out << "ok";
 			}else if(t[0] == "init" || t[0] == "step"){
 				if(!cur) throw std::runtime_error("bad-op");
@@ -316,9 +316,14 @@ int main(){
 					if(t.size() != 1 + f->n) throw std::runtime_error("bad-op");
 					x0.resize(f->n);
 					for(std::size_t k = 0; k != f->n; ++k) x0(k) = bits2d(t[1+k]);
+					// re-initialisation of a USED instance (second `init` of a case): the twin is replaced by a brand-new,
+					// identically configured instance, so every later step compares "re-initialised" with "fresh"
+					// (init must reset all state: step sizes, moments, counters, history, Hessian approximation)
+					if(inited) twin.reset(make(cfg, false, true));
 					doInit(*twin, cfg, *f, x0);
 					std::feclearexcept(FE_ALL_EXCEPT);
 					doInit(*cur, cfg, *f, x0);
+					inited = true;
 					ex = std::fetestexcept(FE_INEXACT) ? 0 : 1;
 				}else{
 					// (the instance under test first: if it throws, the diagnosis below looks at ITS half-updated state)
